@@ -4,7 +4,7 @@
 //     pread may (ENV) yield in the middle, return short, or fail with EIO; every request is logged and checked against the size.
 //   * MEDIA: in-memory sparse files with 4K blocks (pread/pwrite(v)/ftruncate/fallocate(punch)/fstat/fiemap or
 //     SEEK_DATA/SEEK_HOLE, open/stat/unlink/truncate/statvfs/opendir); st_blocks and statvfs are scaled (one 4K block counts
-//     as 350 MB) so that the pool's GB-sized water marks are reached with 2-3 blocks; media I/O may (ENV) yield.
+//     as 315 MB) so that the pool's GB-sized water marks are reached with 2-3 blocks; media I/O may (ENV) yield.
 // Actors: readers (own CachedFile handle each, one pread/preadv from a page-boundary alphabet, exact-size heap buffers),
 // an evictor (pool->evict(file) / fill the pool through another file / let 300 virtual seconds pass so that the pool timer
 // and the store TTL fire), then - with no read in flight - optional range punching and optional reuse of the media by a new
@@ -42,8 +42,8 @@ using namespace photon;
 using namespace photon::fs;
 
 static const size_t PG = 4096;
-static const uint64_t PAGE_COST = 350ull << 20;          // what one allocated 4K media block "weighs" in st_blocks / statvfs
-static const uint64_t DISK_TOTAL = 64ull << 30;          // scaled size of the media file system
+static const uint64_t PAGE_COST = 315ull << 20;          // what one allocated 4K media block "weighs" in st_blocks / statvfs
+static const uint64_t DISK_TOTAL = 8 * PAGE_COST;        // scaled size of the media file system: 8 blocks
 static const uint64_t LONG_US = 100ull * 1000 * 1000;    // pool timer period and store TTL: never fire unless time is moved explicitly
 enum { Y_SRC_DATA = 0, Y_SRC_META = 1, Y_MEDIA_DATA = 2, Y_MEDIA_NS = 3 };
 enum { F_SHORT = 1, F_EIO = 2 };
@@ -54,20 +54,60 @@ static inline uint8_t fbyte(int fid, uint64_t off) {
     return 1 + (uint8_t)(h % 255);
 }
 
+// Exact-size heap blocks that are recycled by the harness instead of going through free(): a released block is ASan-poisoned
+// until it is handed out again (a late access = "use-after-poison", an overflow hits malloc's red zone as usual).
+// Only a memory pool: keeps ASan's quarantine from churning through fresh pages (page faults are what limits throughput here).
+#include <sanitizer/asan_interface.h>
+#include <sys/mman.h>
+#include <sys/resource.h>
+#include <photon/thread/stack-allocator.h>
+static std::map<size_t, std::vector<void*>> blk_free_list;
+static std::map<void*, size_t> blk_size;
+static void* blk_alloc(size_t n) {
+    auto& fl = blk_free_list[n];
+    void* p;
+    if (!fl.empty()) { p = fl.back(); fl.pop_back(); ASAN_UNPOISON_MEMORY_REGION(p, n); }
+    else { p = malloc(n); blk_size[p] = n; }
+    return p;
+}
+static void blk_release(void* p) {
+    if (!p) return;
+    auto it = blk_size.find(p);
+    if (it == blk_size.end()) pmc_broken("blk_release of a foreign pointer");
+    ASAN_POISON_MEMORY_REGION(p, it->second);
+    blk_free_list[it->second].push_back(p);
+}
+// photon stacks: the cache creates its timers with hard-wired 8 MB stacks; poisoning 8 MB (1 MB of shadow) four times per
+// execution costs more than the scenario itself. Same scheme as sv_rt's allocator (pooled raw mmap, a released stack stays
+// poisoned until reuse) but only the top 256 KB - where the thread struct and every frame of these threads live - are (un)poisoned.
+static const size_t STACK_GUARDED = 256 * 1024;
+static std::vector<std::pair<void*, size_t>> stack_pool;
+static void* stack_alloc(void*, size_t size) {
+    size_t g = std::min(size, STACK_GUARDED);
+    for (size_t i = 0; i < stack_pool.size(); i++)
+        if (stack_pool[i].second == size) { void* p = stack_pool[i].first; stack_pool[i] = stack_pool.back(); stack_pool.pop_back(); ASAN_UNPOISON_MEMORY_REGION((char*)p + size - g, g); return p; }
+    void* p = mmap(nullptr, size, PROT_READ | PROT_WRITE, MAP_PRIVATE | MAP_ANONYMOUS | MAP_NORESERVE, -1, 0);
+    return p == MAP_FAILED ? nullptr : p;
+}
+static void stack_dealloc(void*, void* p, size_t size) { size_t g = std::min(size, STACK_GUARDED); ASAN_POISON_MEMORY_REGION((char*)p + size - g, g); stack_pool.push_back({p, size}); }
+
+static int io_alloc(void*, IOAlloc::RangeSize sz, void** ptr) { *ptr = blk_alloc(sz.max); return sz.max; }
+static int io_dealloc(void*, void* ptr) { blk_release(ptr); return 0; }
+
 struct Inode {
     off_t size = 0;
     std::map<uint64_t, uint8_t*> pg;                      // allocated 4K blocks, each its own exact-size heap block
-    ~Inode() { for (auto& p : pg) delete[] p.second; }
+    ~Inode() { for (auto& p : pg) blk_release(p.second); }
     uint8_t* page(uint64_t i, bool create) {
         auto it = pg.find(i);
         if (it != pg.end()) return it->second;
         if (!create) return nullptr;
-        uint8_t* p = new uint8_t[PG]; memset(p, 0, PG); pg[i] = p; return p;
+        uint8_t* p = (uint8_t*)blk_alloc(PG); memset(p, 0, PG); pg[i] = p; return p;
     }
     void truncate(off_t len) {
         if (len < size) {
             for (auto it = pg.begin(); it != pg.end();) {
-                if ((off_t)(it->first * PG) >= len) { delete[] it->second; it = pg.erase(it); } else ++it;
+                if ((off_t)(it->first * PG) >= len) { blk_release(it->second); it = pg.erase(it); } else ++it;
             }
             if (len % PG) { uint8_t* p = page(len / PG, false); if (p) memset(p + len % PG, 0, PG - len % PG); }
         }
@@ -81,7 +121,7 @@ struct Actor { char role; int fid; RSpec spec; int action; int state = 0; ssize_
 
 struct World {
     // configuration
-    std::string family, pool; bool fie = true; int ru = 4096; std::vector<off_t> sizes; int alevel = 1; bool yon[4] = {true, true, true, false};
+    std::string family, pool; bool fie = true; int ru = 4096; std::vector<off_t> sizes; int alevel = 1; bool yon[4] = {false, false, false, false}; bool faults = false; bool quiet = false;
     // source
     off_t fsize[2] = {0, (off_t)PG};                      // file 0 = "/a" (or "/q/a"), file 1 = "/b"
     std::string fname[2];
@@ -90,13 +130,13 @@ struct World {
     // media
     std::map<std::string, std::shared_ptr<Inode>> files; std::set<std::string> dirs;
     // the cache under test
-    ICachedFileSystem* cfs = nullptr; IFileSystem* src = nullptr; IOAlloc alloc; int generation = 0;
+    ICachedFileSystem* cfs = nullptr; IFileSystem* src = nullptr; IOAlloc alloc{{nullptr, &io_alloc}, {nullptr, &io_dealloc}}; int generation = 0;
     std::vector<Actor> actors; std::string log; int nyield = 0; bool finishing = false;
 };
 static World* W;
 
 static bool env_yield(int cls, const char* label) {
-    if (!W->yon[cls]) return false;
+    if (W->quiet || !W->yon[cls]) return false;
     if (pmc_choose(2, PMC_ENV, 1, label)) { W->nyield++; return true; }
     return false;
 }
@@ -172,7 +212,11 @@ public:
             pmc_violation("source-read-beyond-size", "the cache asked the source file %s (size %lld) for offset %lld length %zu", W->fname[fid].c_str(), (long long)S, (long long)off, len);
         ReadCtx* c = nullptr; { auto it = W->ctx.find(photon::CURRENT); if (it != W->ctx.end()) c = it->second; }
         if (c) c->nsrc++;
-        int ans = W->yon[Y_SRC_DATA] ? pmc_choose(4, PMC_ENV, 1, "source pread: full / yields then full / short / EIO") : 0;
+        // what the source does with this request: 0 full, 1 yields in the middle then full, 2 short, 3 EIO
+        int menu[4], nm = 0; menu[nm++] = 0;
+        if (!W->quiet && W->yon[Y_SRC_DATA]) menu[nm++] = 1;
+        if (!W->quiet && W->faults) { menu[nm++] = 2; menu[nm++] = 3; }
+        int ans = menu[pmc_choose(nm, PMC_ENV, 1, W->faults ? (W->yon[Y_SRC_DATA] ? "source pread: full / yields then full / short / EIO" : "source pread: full / short / EIO") : "source pread: full / yields then full")];
         if (ans == 1) { W->nyield++; thread_yield(); }
         if (ans == 3) { W->nfault++; if (c) c->fault |= F_EIO; errno = EIO; return -1; }
         size_t n = len;
@@ -215,7 +259,7 @@ public:
     IFileSystem* filesystem() override { return fs; }
     int fstat(struct stat* st) override {
         fill_stat(ino.get(), st);
-        if (env_yield(Y_MEDIA_DATA, "media fstat yields (answer taken before)")) thread_yield();
+        if (env_yield(Y_MEDIA_NS, "media fstat yields (answer taken before)")) thread_yield();
         return 0;
     }
     int ftruncate(off_t len) override {
@@ -262,7 +306,7 @@ public:
         off_t end = off + len;
         for (auto it = ino->pg.begin(); it != ino->pg.end();) {
             off_t ps = it->first * PG, pe = ps + PG;
-            if (ps >= off && pe <= end) { delete[] it->second; it = ino->pg.erase(it); continue; }
+            if (ps >= off && pe <= end) { blk_release(it->second); it = ino->pg.erase(it); continue; }
             off_t a = std::max(ps, off), b = std::min(pe, end);
             if (a < b) memset(it->second + (a - ps), 0, b - a);
             ++it;
@@ -386,15 +430,16 @@ public:
 
 // ------------------------------------------------------------------ the cache under test
 static void build_cache(bool async_scan) {
+    // capacity 1 GB: water mark 0.9 GB, risk mark 0.95 GB. 2 blocks (630 MB) are below both, 3 blocks (945 MB) are above the water
+    // mark (the timer evicts) but below the risk mark, the 4th block reaches the risk mark (the writer evicts inline: forceRecycle)
     uint64_t capGB = 16, floor = 0;
-    if (W->pool == "cap1" || W->pool == "quota") capGB = 1;            // water mark 0.9 GB, risk mark 0.95 GB: reached by the 3rd block
-    else if (W->pool == "cap0") capGB = 0;                            // always full: every refill is followed by an eviction of everything
-    else if (W->pool == "disk") floor = DISK_TOTAL - PAGE_COST * 3 / 2;   // free-space floor: crossed by the 2nd block
-    W->generation++;
+    if (W->pool == "cap1") capGB = 1;
+    else if (W->pool == "cap0") capGB = 0;                                  // always full: every refill is followed by an eviction of everything
+    else if (W->pool == "disk") floor = DISK_TOTAL - PAGE_COST * 3 / 2;       // free-space floor: crossed by the 2nd block (probed at every block)
     if (W->pool == "quota") {
         auto pool = new QuotaFilePool(new MediaFs, 16, LONG_US, 0, W->ru, 1);
         pool->Init();
-        pool->set_quota("/q/", 1ull << 30);                           // directory /q: same marks as cap1
+        pool->set_quota("/q/", 1ull << 30);                                   // directory /q: same marks as cap1
         W->cfs = new_cached_fs(W->src, pool, 4096, &W->alloc, nullptr);
     } else {
         W->cfs = new_full_file_cached_fs(W->src, new MediaFs, W->ru, capGB, LONG_US, floor, &W->alloc, 0, nullptr, LONG_US, async_scan);
@@ -417,7 +462,7 @@ static ssize_t checked_read(IFile* f, int fid, RSpec rs, const char* who) {
     off_t S = W->fsize[fid];
     size_t expect = rs.off >= S ? 0 : std::min<size_t>(rs.len, S - rs.off);
     size_t n1 = (rs.split > 0 && rs.split < rs.len) ? rs.split : rs.len, n2 = rs.len - n1;
-    uint8_t* b1 = (uint8_t*)malloc(n1); uint8_t* b2 = n2 ? (uint8_t*)malloc(n2) : nullptr;
+    uint8_t* b1 = (uint8_t*)blk_alloc(n1); uint8_t* b2 = n2 ? (uint8_t*)blk_alloc(n2) : nullptr;
     memset(b1, 0xEE, n1); if (b2) memset(b2, 0xEE, n2);
     struct iovec iov[2] = {{b1, n1}, {b2, n2}};
     ReadCtx c; W->ctx[photon::CURRENT] = &c;
@@ -428,8 +473,8 @@ static ssize_t checked_read(IFile* f, int fid, RSpec rs, const char* who) {
     char tag[96];
     if (r < 0) {
         if (!c.fault)
-            pmc_violation("read-failed-without-source-fault", "%s: cached read of %s off=%lld len=%zu returned %zd (errno %d) although no source read issued by it failed or was short (size %lld, %d source reads by it)",
-                          who, W->fname[fid].c_str(), (long long)rs.off, rs.len, r, e, (long long)S, c.nsrc);
+            pmc_violation("read-failed-without-source-fault", "%s: cached read of %s off=%lld len=%zu returned %zd (errno %d) although no source read issued by it failed or was short (size %lld, %d source reads by it); log: %s",
+                          who, W->fname[fid].c_str(), (long long)rs.off, rs.len, r, e, (long long)S, c.nsrc, W->log.c_str());
         snprintf(tag, sizeof tag, "%s=fail(f%d) ", who, c.fault);
     } else {
         if ((size_t)r > expect)
@@ -437,20 +482,20 @@ static ssize_t checked_read(IFile* f, int fid, RSpec rs, const char* who) {
         for (size_t i = 0; i < (size_t)r; i++) {
             uint8_t got = i < n1 ? b1[i] : b2[i - n1], want = fbyte(fid, rs.off + i);
             if (got != want)
-                pmc_violation("wrong-bytes", "%s: cached read of %s off=%lld len=%zu (pieces %zu+%zu) returned %zd; byte %zu (file offset %lld) is 0x%02x, the source has 0x%02x%s; size %lld, source faults injected into this read: %d",
+                pmc_violation("wrong-bytes", "%s: cached read of %s off=%lld len=%zu (pieces %zu+%zu) returned %zd; byte %zu (file offset %lld) is 0x%02x, the source has 0x%02x%s; size %lld, source faults injected into this read: %d; log: %s; source reads: %s",
                               who, W->fname[fid].c_str(), (long long)rs.off, rs.len, n1, n2, r, i, (long long)(rs.off + i), got, want,
-                              got == 0 ? " (zero = a hole of the media file)" : got == 0xEE ? " (buffer not written)" : "", (long long)S, c.fault);
+                              got == 0 ? " (zero = a hole of the media file)" : got == 0xEE ? " (buffer not written)" : "", (long long)S, c.fault, W->log.c_str(), W->srclog.c_str());
         }
         if ((size_t)r < expect) {
             // correct bytes but fewer than the source has
             if (!(c.fault & F_SHORT))
-                pmc_violation("wrong-count", "%s: cached read of %s off=%lld len=%zu returned %zd, expected %zu (size %lld); source faults injected into this read: %d", who, W->fname[fid].c_str(), (long long)rs.off, rs.len, r, expect, (long long)S, c.fault);
-            pmc_violation("short-count-returned", "%s: cached read of %s off=%lld len=%zu returned the positive count %zd instead of %zu or -1 after a short source read", who, W->fname[fid].c_str(), (long long)rs.off, rs.len, r, expect);
+                pmc_violation("wrong-count", "%s: cached read of %s off=%lld len=%zu returned %zd, expected %zu (size %lld); source faults injected into this read: %d; log: %s", who, W->fname[fid].c_str(), (long long)rs.off, rs.len, r, expect, (long long)S, c.fault, W->log.c_str());
+            pmc_violation("short-count-returned", "%s: cached read of %s off=%lld len=%zu returned the positive count %zd instead of %zu or -1 after a short source read; log: %s", who, W->fname[fid].c_str(), (long long)rs.off, rs.len, r, expect, W->log.c_str());
         }
         snprintf(tag, sizeof tag, "%s=%zd/s%d ", who, r, c.nsrc);
     }
     W->log += tag;
-    free(b1); free(b2);
+    blk_release(b1); blk_release(b2);
     return r;
 }
 
@@ -465,9 +510,9 @@ static std::vector<RSpec> alphabet(off_t S, int level) {
     add(0, S + PG, (S + 1) / 2);          // the whole file and beyond, two pieces cut in the middle
     add(0, 1, 0);                         // first byte
     add(PG - 1, 2, 1);                    // across the first page boundary, 1+1
+    add(PG, PG + 1, 0);                   // second page and one byte of the third
     add(1, S, PG - 1);                    // everything but the first byte, one byte beyond EOF, cut at the page boundary
     add(S - 1, PG, 0);                    // last byte, length beyond EOF
-    add(PG, PG + 1, 0);                   // second page and one byte of the third
     if (level >= 2) {
         add(0, PG, 0);                    // exactly the first page
         add(PG + 1, PG - 2, 7);           // inside the second page
@@ -477,8 +522,9 @@ static std::vector<RSpec> alphabet(off_t S, int level) {
     }
     return v;
 }
-static RSpec choose_spec(int fid, const char* label) {
+static RSpec choose_spec(int fid, const char* label, int limit = 0) {
     auto v = alphabet(W->fsize[fid], W->alevel);
+    if (limit && (int)v.size() > limit) v.resize(limit);
     int k = pmc_choose((int)v.size(), PMC_PROG, 0, label);
     char b[64]; snprintf(b, sizeof b, "[%lld+%zu/%zu]", (long long)v[k].off, v[k].len, v[k].split); W->log += b;
     return v[k];
@@ -523,32 +569,46 @@ static bool watchdog(uint64_t*) {
     return false;
 }
 
-// config "<family>:<pool>:<fie|rng>:ru<4|8>:s<size>[,<size>...]:a<1|2>:y<classes>"
-//   family rr = two concurrent readers; re = reader, evictor, reader; sq = read, punch, reuse, read (sequential)
-#include <x86intrin.h>
-#include <sys/resource.h>
-static uint64_t prof_t[8], prof_f[8], prof_n; static uint64_t prof_last_t, prof_last_f;
-static void prof(int k) { if (!getenv("C17_PROF")) return; struct rusage ru; getrusage(RUSAGE_SELF, &ru); uint64_t t = __rdtsc(); if (k >= 0) { prof_t[k] += t - prof_last_t; prof_f[k] += ru.ru_minflt - prof_last_f; } prof_last_t = __rdtsc(); prof_last_f = ru.ru_minflt; }
+// the whole file through a fresh handle, environment at its defaults (no choice points)
+static void quiet_full_read(const char* who, bool twice) {
+    bool q = W->quiet; W->quiet = true;
+    IFile* f = W->cfs->open(W->fname[0].c_str(), O_RDONLY);
+    if (!f) pmc_violation("open-failed", "%s: open failed, errno %d", who, errno);
+    checked_read(f, 0, {0, (size_t)W->fsize[0] + 1, 0}, who);
+    if (twice) checked_read(f, 0, {0, (size_t)W->fsize[0], (size_t)PG}, who);      // second time from whatever the first one left in the cache
+    delete f;
+    W->quiet = q;
+}
+
+// config "<scenario>:<pool>:<fie|rng>:ru<4|8>:s<size>[,<size>...]:a<1|2>:y<classes>"
+//   scenario  rr        two concurrent readers on a cold cache
+//             re<c|w><1|2|3>  reader, evictor, reader (3 start orders) on a cold / warm (whole file cached) cache;
+//                       evictor: 1 pool->evict(file), 2 fills the pool through /b, 3 lets 300 s pass (pool timer, store TTL)
+//             sq        sequential: read, punch (no read in flight), reuse of the media by a new pool, read
+//   pool      cap1 | cap0 | disk | big | quota     map: fiemap works / range map + SEEK_DATA,SEEK_HOLE
+//   y         0 source pread yields, 1 source open/fstat yield, 2 media pread/pwrite/ftruncate/fallocate/fiemap yield,
+//             3 media open/stat/fstat/unlink/truncate/statvfs/opendir yield, f source pread may be short or fail
 void pmc_run(const char* config) {
-    prof(-1);
     World w; W = &w;
     {
-        char fam[8], pool[8], map[8], sizes[64], ys[8]; int ru, al;
-        if (sscanf(config, "%7[^:]:%7[^:]:%7[^:]:ru%d:s%63[^:]:a%d:y%7s", fam, pool, map, &ru, sizes, &al, ys) != 7) pmc_broken("bad config %s", config);
-        w.family = fam; w.pool = pool; w.fie = !strcmp(map, "fie"); w.ru = ru * 1024; w.alevel = al;
+        char scn[8], pool[8], map[8], sizes[64], ys[8]; int ru, al;
+        if (sscanf(config, "%7[^:]:%7[^:]:%7[^:]:ru%d:s%63[^:]:a%d:y%7s", scn, pool, map, &ru, sizes, &al, ys) != 7) pmc_broken("bad config %s", config);
+        w.family = scn; w.pool = pool; w.fie = !strcmp(map, "fie"); w.ru = ru * 1024; w.alevel = al;
         for (char* t = strtok(sizes, ","); t; t = strtok(nullptr, ",")) w.sizes.push_back(atoll(t));
         for (int i = 0; i < 4; i++) w.yon[i] = strchr(ys, '0' + i) != nullptr;
+        w.faults = strchr(ys, 'f') != nullptr;
     }
     bool quota = w.pool == "quota";
     w.fname[0] = quota ? "/q/a" : "/a"; w.fname[1] = quota ? "/q/b" : "/b";
+    w.fsize[1] = PG + 1;
     pmc_window(0);
+    sv::use_fast_stacks = false;
+    photon::set_photon_thread_stack_allocator({&stack_alloc, nullptr}, {&stack_dealloc, nullptr});
     sv::init();
     sv::on_deadlock = on_deadlock; sv::env_next_event = watchdog;
     if (!pmc_verbose()) set_log_output_level(ALOG_FATAL + 1);
     SrcFs src; w.src = &src;
-    prof(0);
     build_cache(false);
-    prof(1);
     pmc_window(1);
 
     w.fsize[0] = w.sizes[pmc_choose((int)w.sizes.size(), PMC_PROG, 0, "source file size")];
@@ -558,15 +618,14 @@ void pmc_run(const char* config) {
         w.actors.resize(2);
         for (int i = 0; i < 2; i++) { w.actors[i].role = 'R'; w.actors[i].fid = 0; w.actors[i].spec = choose_spec(0, i ? "reader 2 range" : "reader 1 range"); }
         run_actors({0, 1});
-    } else if (w.family == "re") {
+    } else if (w.family.size() == 4 && w.family[0] == 'r' && w.family[1] == 'e') {
+        if (w.family[2] == 'w') quiet_full_read("W", false);
         w.actors.resize(3);
         w.actors[0].role = 'R'; w.actors[0].fid = 0; w.actors[0].spec = choose_spec(0, "reader 1 range");
-        w.actors[1].role = 'E'; w.actors[1].action = 1 + pmc_choose(3, PMC_PROG, 0, "evictor: evict(file) / fill the pool through /b / 300 s pass");
-        w.actors[1].fid = 1; w.actors[1].spec = {0, PG + 1, 0};
-        { char b[8]; snprintf(b, sizeof b, "E%d ", w.actors[1].action); w.log += b; }
-        w.actors[2].role = 'R'; w.actors[2].fid = 0;
-        { auto v = alphabet(w.fsize[0], 1); int k = pmc_choose(std::min<int>(3, v.size()), PMC_PROG, 0, "reader 2 range"); w.actors[2].spec = v[k]; char b[8]; snprintf(b, sizeof b, "r%d ", k); w.log += b; }
-        int ord = pmc_choose(3, PMC_PROG, 0, "start order: R E R / E R R / R R E");
+        w.actors[1].role = 'E'; w.actors[1].action = w.family[3] - '0'; w.actors[1].fid = 1; w.actors[1].spec = {0, PG + 2, 0};
+        w.actors[2].role = 'R'; w.actors[2].fid = 0; w.actors[2].spec = choose_spec(0, "reader 2 range", 3);
+        int ord = pmc_choose(3, PMC_PROG, 0, "start order: R1 E R2 / E R1 R2 / R1 R2 E");
+        { char b[8]; snprintf(b, sizeof b, "o%d ", ord); w.log += b; }
         static const int ORD[3][3] = {{0, 1, 2}, {1, 0, 2}, {0, 2, 1}};
         run_actors({ORD[ord][0], ORD[ord][1], ORD[ord][2]});
     } else if (w.family == "sq") {
@@ -590,27 +649,16 @@ void pmc_run(const char* config) {
         }
         w.actors.resize(2); w.actors[1].role = 'R'; w.actors[1].fid = 0; w.actors[1].spec = choose_spec(0, "second read");
         run_actors({1});
-    } else pmc_broken("unknown family %s", w.family.c_str());
+    } else pmc_broken("unknown scenario %s", w.family.c_str());
 
-    prof(2);
-    // verification: the whole file through a fresh handle, twice (second time from whatever the first one left in the cache)
-    {
-        w.actors.clear();
-        IFile* f = w.cfs->open(w.fname[0].c_str(), O_RDONLY);
-        if (!f) pmc_violation("open-failed", "final open failed, errno %d", errno);
-        checked_read(f, 0, {0, (size_t)w.fsize[0] + 1, 0}, "V1");
-        checked_read(f, 0, {0, (size_t)w.fsize[0], (size_t)PG}, "V2");
-        delete f;
-    }
+    w.actors.clear();
+    quiet_full_read("V", true);
     pmc_window(0);
     pmc_obs("%s| src:%s| y%d f%d | %s", w.log.c_str(), w.srclog.c_str(), w.nyield, w.nfault, disk_state().c_str());
-    prof(3);
     delete w.cfs; w.cfs = nullptr;
-    prof(4);
     sv::fini();
-    prof(5);
     W = nullptr;
-    if (getenv("C17_PROF") && ++prof_n % 200 == 0) { FILE* f = fopen("/tmp/c17b/prof.txt", "a"); fprintf(f, "pid %d n=%llu ", getpid(), (unsigned long long)prof_n); for (int i = 0; i < 6; i++) { fprintf(f, "ph%d: %.1f us %.2f faults | ", i, prof_t[i] / 2.7e3 / 200, (double)prof_f[i] / 200); prof_t[i] = prof_f[i] = 0; } fprintf(f, "\n"); fclose(f); }
+    if (getenv("C17_PROF")) { static int n; static long lastf; n++; if (n == 1 || n == 10 || n == 50 || n % 200 == 0) { struct rusage ru; getrusage(RUSAGE_SELF, &ru); FILE* f = fopen("/tmp/c17b/prof.txt", "a"); fprintf(f, "pid %d n=%d faults=%ld (+%ld) utime=%ld ms stime=%ld ms\n", getpid(), n, ru.ru_minflt, ru.ru_minflt - lastf, ru.ru_utime.tv_sec * 1000 + ru.ru_utime.tv_usec / 1000, ru.ru_stime.tv_sec * 1000 + ru.ru_stime.tv_usec / 1000); fclose(f); lastf = ru.ru_minflt; } }
 }
 
 #define Q 1
@@ -618,7 +666,11 @@ void pmc_run(const char* config) {
 #define QT 3
 static const PmcConfig CFG[] = {
     // name                                   tiers sched  time   env    total
-    {"rr:cap1:fie:ru4:s8193:a1:y012",           QT, {0,0}, {0,0}, {2,3}, {0,0}, "two concurrent readers, 2 pages + 1 byte, refill unit 4K, fiemap"},
+    {"rr:cap1:fie:ru4:s8193:a1:y012f",          QT, {0,0}, {0,0}, {2,3}, {0,0}, "two concurrent readers, 2 pages + 1 byte, refill unit 4K, fiemap"},
+    {"rew1:cap1:fie:ru4:s8193:a1:y012f",        QT, {0,0}, {0,0}, {2,3}, {0,0}, ""},
+    {"rec2:cap1:fie:ru4:s8193:a1:y012f",        QT, {0,0}, {0,0}, {2,3}, {0,0}, ""},
+    {"rew3:cap1:fie:ru4:s8193:a1:y012f",        QT, {0,0}, {0,0}, {2,3}, {0,0}, ""},
+    {"sq:cap1:fie:ru4:s8193:a1:yf",             QT, {0,0}, {0,0}, {2,3}, {0,0}, ""},
 };
 #undef Q
 #undef T
